@@ -7,12 +7,14 @@
  "expect_classes": ["assertion"], "timeout": 200, "cbmc_flags": ["--no-malloc-may-fail"],
  "variants": [
   {"vname": "max",  "defines": ["-DV_FMT=\"%00000000000000005d\"", "-DV_F0=\"%00000000000000005d\""]},
-  {"vname": "over", "defines": ["-DV_FMT=\"%0000000000000000000005d\"", "-DV_F0=\"%0000000000000000000005d\""]}]}
+  {"vname": "over", "defines": ["-DV_OVER", "-DV_FMT=\"%0000000000000000000005d\"", "-DV_F0=\"%0000000000000000000005d\""]}]}
 */
 /* qb_vsnprintf_deserialize rebuilds each directive in a 20-byte scratch format.  Decoding never writes outside the
  * buffers involved, for any format:
  *   max  : a directive of 19 characters ("%" + 17 flag/width characters + "d") -- the longest that fits with its terminator
- *   over : a directive of 24 characters -> DESIGN.md 7 #11: fmt[20] is overrun */
+ *   over : a directive of 24 characters -> (after the fix of DESIGN.md 7 #11) the decoder stops instead of over-running
+ *          fmt[20]; only memory safety is required here: a directive longer than the scratch format is not reproduced
+ *          (reported limitation, DESIGN.md 10.3) */
 #define VERIF_PF_RET_MAX 4
 #include "ser.h"
 
@@ -31,9 +33,14 @@ void harness(void)
 
 	size_t dl = qb_vsnprintf_deserialize(text, 32, rec);
 
+#ifndef V_OVER
 	COVER(verif_pf_n == 1);
 	POST(verif_pf_n == 1, "every conversion of the format is printed exactly once");
 	POST(verif_streq(verif_pf[0].fmt, V_F0), "the decoder prints the argument with the original directive text");
 	POST(verif_pf[0].ival == nd_i0, "the decoder prints the original argument value");
+#else
+	COVER(verif_pf_n == 0);
+	POST(verif_pf_n <= 1, "a conversion is never printed twice");
+#endif
 	POST(dl <= 32, "the decoder reports a length within the caller's buffer");
 }
